@@ -201,7 +201,11 @@ class CKernel:
         self.t_unit = t_unit
         self.kernel = t_unit.default_entrypoint
         try:
-            cg = lp.generate_code_v2(t_unit)
+            # (loopy prints the whole kernel to stdout before some errors)
+            import contextlib
+            import io
+            with contextlib.redirect_stdout(io.StringIO()):
+                cg = lp.generate_code_v2(t_unit)
             self.source = cg.device_code()
         except Exception as e:
             raise CodegenFailure(
